@@ -148,6 +148,32 @@ fn clip(text: &str) -> String {
 }
 
 /// The check itself. `source` only labels the histogram.
+/// List-like forms whose length is a parameter: `n` separators / items / repetitions.
+const REPEAT_FORMS: [(&str, fn(usize) -> String); 22] = [
+    ("locate-leading-commas", |n| format!("LOCATE {}1\n", ",".repeat(n))),
+    ("locate-trailing-commas", |n| format!("LOCATE 1{}\n", ",".repeat(n))),
+    ("locate-all-present", |n| format!("LOCATE 1{}\n", ", 1".repeat(n))),
+    ("color-leading-commas", |n| format!("COLOR {}1\n", ",".repeat(n))),
+    ("color-all-present", |n| format!("COLOR 1{}\n", ", 2".repeat(n))),
+    ("print-commas", |n| format!("PRINT {}\n", ",".repeat(n))),
+    ("print-semicolons", |n| format!("PRINT 1{}\n", ";".repeat(n))),
+    ("print-items", |n| format!("PRINT 1{}\n", "; 2".repeat(n))),
+    ("print-using-items", |n| format!("PRINT USING \"#\"; 1{}\n", "; 2".repeat(n))),
+    ("input-variables", |n| format!("INPUT A{}\n", ", B".repeat(n))),
+    ("read-variables", |n| format!("READ A{}\n", ", B".repeat(n))),
+    ("data-items", |n| format!("DATA 1{}\n", ", 2".repeat(n))),
+    ("data-empty-items", |n| format!("DATA {}\n", ",".repeat(n))),
+    ("dim-variables", |n| format!("DIM A{}\n", (0..n).map(|i| format!(", B{}", i)).collect::<String>())),
+    ("dim-dimensions", |n| format!("DIM A(1{})\n", ", 1".repeat(n))),
+    ("subscripts", |n| format!("A(1{}) = 1\n", ", 1".repeat(n))),
+    ("call-arguments", |n| format!("S 1{}\nSUB S\nEND SUB\n", ", 2".repeat(n))),
+    ("function-arguments", |n| format!("PRINT F(1{})\n", ", 2".repeat(n))),
+    ("case-items", |n| format!("SELECT CASE 1\nCASE 1{}\nEND SELECT\n", ", 2".repeat(n))),
+    ("close-handles", |n| format!("CLOSE #1{}\n", ", #2".repeat(n))),
+    ("colon-statements", |n| format!("X = 1{}\n", ": X = 2".repeat(n))),
+    ("deftype-ranges", |n| format!("DEFINT A{}\n", ", B-C".repeat(n))),
+];
+
 fn check_text(sh: &mut Shard, source: &str, text: &str) -> Result<(), Violation> {
     sh.journal(text);
     sh.eval();
@@ -3421,7 +3447,29 @@ impl Prop for C07 {
         }
         sh.exhaustive("deep nesting: every listed construct at every listed depth");
 
-        lap("edge+deep", sh);
+        // (d2) long flat repetitions: every list-like form with 0..=40 and some larger numbers of items / separators
+        // (deep nesting is one axis, the LENGTH of a flat list - e.g. 33 commas in LOCATE - is the other)
+        {
+            let counts: Vec<usize> = (0..=40).chain([47, 63, 64, 65, 100, 127, 128, 129, 255, 256, 257, 300, 1000]).collect();
+            let mut k = 0u64;
+            for (name, make) in REPEAT_FORMS.iter() {
+                for n in &counts {
+                    k += 1;
+                    if !sh.mine(k) {
+                        continue;
+                    }
+                    let text = make(*n);
+                    sh.class(&format!("repeat:{}", name));
+                    let r = check_text(sh, "repeat", &text);
+                    if !sh.report(r) {
+                        return;
+                    }
+                }
+            }
+            sh.exhaustive("flat repetitions: every listed list-like form with every listed item count");
+        }
+
+        lap("edge+deep+repeat", sh);
         // (a) random bytes
         let n = sh.share(tier.pick(14_000, 200_000));
         sh.search(1, n, 8, 64, |sh, tape| {
